@@ -19,7 +19,9 @@ For every well-formed snapshot (`WF`: every reference points to an allocated obj
   `trace_reach_exact`, `trace_injective`, `trace_iso`, `trace_onto`, `trace_identity`,
   `trace_schedule_independent`.
 * `twoPhase_iso` — mark (the closure with `moves = false`) → any forwarding `F` injective on the
-  marked objects → update + move (MarkCompact / Compressor).
+  marked objects → update + move (MarkCompact / Compressor); `slide_nonoverlap`, `slide_injective`,
+  `slide_le` discharge the hypothesis on `F` for MarkCompact's linear-scan forwarding
+  (`markCompact_iso`).  For the Compressor the same hypothesis is C37's theorem.
 
 What the model cannot exhibit (so these theorems do not cover it): memory-safety faults, torn
 copies, weak-memory effects, and address-level clobbering during in-place compaction.
@@ -395,6 +397,194 @@ theorem twoPhase_iso (wf : WF S) (B : Nat) (hB : ∀ i, (S.heap i).isSome = true
     obtain ⟨n, t, h1, h2, _, _, h5, _⟩ := (trace_iso (moves := fun _ => false) wf run hfin).1 o obj hreach hobj
     exact ⟨n, t, h1, h2, h5⟩
 
+/-! ## MarkCompact: the sliding forwarding is injective, non-overlapping, and slides downwards -/
+
+theorem slideF_ge (marked : Id → Bool) (pad : LObj → Nat → Nat) (objs : List LObj) (cur : Nat) (x : Id)
+    (a : Nat) (h : slideF marked pad cur objs x = some a) : cur ≤ a := by
+  induction objs generalizing cur with
+  | nil => cases h
+  | cons o rest ih =>
+    simp only [slideF] at h
+    split at h
+    · split at h
+      · injection h with h; omega
+      · have := ih _ h; omega
+    · exact ih _ h
+
+theorem slideF_mem (marked : Id → Bool) (pad : LObj → Nat → Nat) (objs : List LObj) (cur : Nat) (x : Id)
+    (a : Nat) (h : slideF marked pad cur objs x = some a) :
+    marked x = true ∧ ∃ o, o ∈ objs ∧ o.id = x := by
+  induction objs generalizing cur with
+  | nil => cases h
+  | cons o rest ih =>
+    simp only [slideF] at h
+    split at h
+    · rename_i hm
+      split at h
+      · rename_i hx
+        exact ⟨by rw [hx]; exact hm, o, List.mem_cons_self, hx.symm⟩
+      · obtain ⟨h1, o', ho', h2⟩ := ih _ h
+        exact ⟨h1, o', List.mem_cons_of_mem _ ho', h2⟩
+    · obtain ⟨h1, o', ho', h2⟩ := ih _ h
+      exact ⟨h1, o', List.mem_cons_of_mem _ ho', h2⟩
+
+/-- every marked object of the scanned list gets a forwarding address -/
+theorem slideF_total (marked : Id → Bool) (pad : LObj → Nat → Nat) (objs : List LObj) (cur : Nat)
+    (o : LObj) (ho : o ∈ objs) (hm : marked o.id = true) :
+    ∃ a, slideF marked pad cur objs o.id = some a := by
+  induction objs generalizing cur with
+  | nil => cases ho
+  | cons o' rest ih =>
+    simp only [slideF]
+    by_cases hm' : marked o'.id = true
+    · simp only [hm', if_true]
+      by_cases hx : o.id = o'.id
+      · exact ⟨cur + pad o' cur, by simp [hx]⟩
+      · simp only [hx, if_false]
+        rcases List.mem_cons.mp ho with h | h
+        · exact absurd (by rw [h]) hx
+        · exact ih _ h
+    · simp only [hm']
+      rcases List.mem_cons.mp ho with h | h
+      · rw [h] at hm; exact absurd hm hm'
+      · exact ih _ h
+
+/-- **slide_nonoverlap**: two different marked objects get non-overlapping target extents. -/
+theorem slide_nonoverlap (marked : Id → Bool) (pad : LObj → Nat → Nat) (objs : List LObj) (cur : Nat)
+    (hnd : (objs.map LObj.id).Nodup) (o₁ o₂ : LObj) (h₁ : o₁ ∈ objs) (h₂ : o₂ ∈ objs) (hne : o₁ ≠ o₂)
+    (a b : Nat) (ha : slideF marked pad cur objs o₁.id = some a)
+    (hb : slideF marked pad cur objs o₂.id = some b) :
+    a + o₁.size ≤ b ∨ b + o₂.size ≤ a := by
+  induction objs generalizing cur with
+  | nil => cases h₁
+  | cons o rest ih =>
+    simp only [List.map_cons, List.nodup_cons, List.mem_map, not_exists, not_and] at hnd
+    obtain ⟨hfresh, hnd'⟩ := hnd
+    have id_ne : ∀ o', o' ∈ rest → o'.id ≠ o.id := fun o' ho' => hfresh o' ho'
+    simp only [slideF] at ha hb
+    by_cases hm : marked o.id = true
+    · simp only [hm, if_true] at ha hb
+      rcases List.mem_cons.mp h₁ with e₁ | e₁ <;> rcases List.mem_cons.mp h₂ with e₂ | e₂
+      · exact absurd (e₁.trans e₂.symm) hne
+      · subst e₁
+        simp only [if_true] at ha
+        simp only [id_ne o₂ e₂, if_false] at hb
+        injection ha with ha
+        have := slideF_ge marked pad rest _ _ _ hb
+        left; omega
+      · subst e₂
+        simp only [if_true] at hb
+        simp only [id_ne o₁ e₁, if_false] at ha
+        injection hb with hb
+        have := slideF_ge marked pad rest _ _ _ ha
+        right; omega
+      · simp only [id_ne o₁ e₁, id_ne o₂ e₂, if_false] at ha hb
+        exact ih _ hnd' e₁ e₂ ha hb
+    · simp only [hm] at ha hb
+      have in_rest : ∀ o', o' ∈ o :: rest → ∀ c, slideF marked pad cur rest o'.id = some c → o' ∈ rest := by
+        intro o' ho' c hc
+        rcases List.mem_cons.mp ho' with e | e
+        · obtain ⟨_, o'', ho'', hid⟩ := slideF_mem marked pad rest cur _ _ hc
+          rw [e] at hid
+          exact absurd hid (id_ne o'' ho'')
+        · exact e
+      exact ih _ hnd' (in_rest o₁ h₁ a ha) (in_rest o₂ h₂ b hb) ha hb
+
+/-- **slide_injective** — the hypothesis of `twoPhase_iso`, discharged for the sliding forwarding:
+if every marked object is in the scanned list, ids are unique and sizes positive, then
+`F x = (slideF … x).getD 0` is injective on the marked objects. -/
+theorem slide_injective (marked : Id → Bool) (pad : LObj → Nat → Nat) (objs : List LObj) (cur : Nat)
+    (hnd : (objs.map LObj.id).Nodup) (hpos : ∀ o, o ∈ objs → 0 < o.size)
+    (hall : ∀ x, marked x = true → ∃ o, o ∈ objs ∧ o.id = x)
+    (x y : Id) (hx : marked x = true) (hy : marked y = true)
+    (h : (slideF marked pad cur objs x).getD 0 = (slideF marked pad cur objs y).getD 0) : x = y := by
+  obtain ⟨o₁, h₁, rfl⟩ := hall x hx
+  obtain ⟨o₂, h₂, rfl⟩ := hall y hy
+  obtain ⟨a, ha⟩ := slideF_total marked pad objs cur o₁ h₁ hx
+  obtain ⟨b, hb⟩ := slideF_total marked pad objs cur o₂ h₂ hy
+  rw [ha, hb] at h
+  simp only [Option.getD_some] at h
+  by_cases e : o₁ = o₂
+  · rw [e]
+  · have := slide_nonoverlap marked pad objs cur hnd o₁ o₂ h₁ h₂ e a b ha hb
+    have p1 := hpos o₁ h₁
+    have p2 := hpos o₂ h₂
+    omega
+
+theorem slideF_le_addr (marked : Id → Bool) (pad : LObj → Nat → Nat) (objs : List LObj) (cur : Nat)
+    (hnd : (objs.map LObj.id).Nodup)
+    (hsorted : objs.Pairwise (fun p q => p.addr + p.size ≤ q.addr))
+    (hcur : ∀ o, o ∈ objs → cur ≤ o.addr)
+    (hpad : ∀ o c, c ≤ o.addr → c + pad o c ≤ o.addr)
+    (o : LObj) (ho : o ∈ objs) (a : Nat) (ha : slideF marked pad cur objs o.id = some a) :
+    a ≤ o.addr := by
+  induction objs generalizing cur with
+  | nil => cases ho
+  | cons o₀ rest ih =>
+    simp only [List.map_cons, List.nodup_cons, List.mem_map, not_exists, not_and] at hnd
+    obtain ⟨hfresh, hnd'⟩ := hnd
+    simp only [List.pairwise_cons] at hsorted
+    obtain ⟨hs1, hs2⟩ := hsorted
+    simp only [slideF] at ha
+    by_cases hm : marked o₀.id = true
+    · simp only [hm, if_true] at ha
+      rcases List.mem_cons.mp ho with e | e
+      · subst e
+        simp only [if_true] at ha
+        injection ha with ha
+        have := hpad o cur (hcur o List.mem_cons_self); omega
+      · simp only [hfresh o e, if_false] at ha
+        refine ih _ hnd' hs2 ?_ e ha
+        intro o' ho'
+        have := hpad o₀ cur (hcur o₀ List.mem_cons_self)
+        have := hs1 o' ho'
+        omega
+    · simp only [hm] at ha
+      have e : o ∈ rest := by
+        rcases List.mem_cons.mp ho with e | e
+        · obtain ⟨_, o'', ho'', hid⟩ := slideF_mem marked pad rest cur _ _ ha
+          rw [e] at hid
+          exact absurd hid (hfresh o'' ho'')
+        · exact e
+      exact ih _ hnd' hs2 (fun o' ho' => hcur o' (List.mem_cons_of_mem _ ho')) e ha
+
+/-- **slide_le** (why compacting in address order never clobbers an object that has not been moved
+yet): if the objects are laid out in address order without overlap, the cursor starts at or below the
+first one, and aligning a cursor that is `≤` an object's (aligned) address keeps it `≤` that address,
+then every object slides downwards: `F o ≤ addr o` — so `[F o, F o + size)` ends at or before the
+start of every object that comes later in the scan. -/
+theorem slide_le (marked : Id → Bool) (pad : LObj → Nat → Nat) (objs : List LObj) (cur : Nat)
+    (hnd : (objs.map LObj.id).Nodup)
+    (hsorted : objs.Pairwise (fun p q => p.addr + p.size ≤ q.addr))
+    (hcur : ∀ o, o ∈ objs → cur ≤ o.addr)
+    (hpad : ∀ o c, c ≤ o.addr → c + pad o c ≤ o.addr)
+    (o : LObj) (ho : o ∈ objs) (a : Nat) (ha : slideF marked pad cur objs o.id = some a) :
+    a ≤ o.addr ∧ ∀ o', o' ∈ objs → o.addr + o.size ≤ o'.addr → a + o.size ≤ o'.addr := by
+  have h := slideF_le_addr marked pad objs cur hnd hsorted hcur hpad o ho a ha
+  exact ⟨h, fun o' _ h' => by omega⟩
+
+/-- **markCompact_iso**: `twoPhase_iso` instantiated with the sliding forwarding of MarkCompact —
+no hypothesis about `F` is left. -/
+theorem markCompact_iso (wf : WF S) (B : Nat) (hB : ∀ i, (S.heap i).isSome = true → i < B)
+    (run : List Nat) (hfin : (exec S (fun _ => false) (init S) run).pending = [])
+    (pad : LObj → Nat → Nat) (objs : List LObj) (cur : Nat)
+    (hnd : (objs.map LObj.id).Nodup) (hpos : ∀ o, o ∈ objs → 0 < o.size)
+    (hall : ∀ x, Reach S x → ∃ o, o ∈ objs ∧ o.id = x) :
+    let st := exec S (fun _ => false) (init S) run
+    let F : Id → Id := fun x => (slideF (markedBy st) pad cur objs x).getD 0
+    let T' := compact S F st B
+    (∀ o obj, Reach S o → S.heap o = some obj →
+      T' (F o) = some { size := obj.size, hash := obj.hash, fields := obj.fields.map (Option.map F) }) ∧
+    (∀ a t, T' a = some t → ∃ o, Reach S o ∧ F o = a) ∧
+    (∀ a b, Reach S a → Reach S b → F a = F b → a = b) := by
+  intro st F T'
+  have hmark : ∀ r, markedBy st r = true ↔ Reach S r := fun r => trace_reach_exact wf run hfin r
+  have hF : ∀ a b, markedBy st a = true → markedBy st b = true → F a = F b → a = b :=
+    fun a b ha hb h => slide_injective (markedBy st) pad objs cur hnd hpos
+      (fun x hx => hall x ((hmark x).mp hx)) a b ha hb h
+  obtain ⟨_, h2, _, h4, h5, _⟩ := twoPhase_iso wf B hB run hfin F hF
+  exact ⟨h2, h4, h5⟩
+
 /-! ## Non-vacuity: a concrete cyclic heap with sharing and garbage
 
 ```
@@ -472,5 +662,11 @@ example :
     let T' := compact exSnap (· + 10) st 4
     T' 10 = some ⟨16, 100, [some 11, some 12]⟩ ∧ T' 12 = some ⟨8, 102, [some 10]⟩ ∧ T' 13 = none ∧
     compactRoots exSnap (· + 10) = [some 10, some 11, none, some 10] := by decide
+
+/-- the sliding forwarding on the example layout `0@100(16) 3@116(32, dead) 1@148(24) 2@176(8)` -/
+example :
+    let objs : List LObj := [⟨0, 100, 16⟩, ⟨3, 116, 32⟩, ⟨1, 148, 24⟩, ⟨2, 176, 8⟩]
+    let F := slideF (fun x => x != 3) (fun _ _ => 0) 100 objs
+    (F 0, F 1, F 2, F 3) = (some 100, some 116, some 140, none) := by decide
 
 end Mmtk.Trace
